@@ -203,10 +203,36 @@ def occurrences(n, thorough):
     return sorted(s)
 
 
+A2_CALLS = [["find", 0], ["get", "P1"], ["isid", "P1"]]
+BUILDERS = ("_buildSGLookupTable", "_getSGHashLookupTable")
+
+
+def mixed_schedules(thorough, nested=False):
+    """MIXED first-use workloads: the first-use thread is parked at every executed line of a builder while the other
+    thread starts with a lookup in the OTHER table (a builder that also writes the other table's global exposes it
+    half filled): A = GetSpaceGroup first, parked in the identifier builder, B starts with FindSpaceGroup of late and
+    early settings; A = FindSpaceGroup first, parked in the hash builder, B starts with GetSpaceGroup."""
+    import diffpy.structure.spacegroups as S
+    last = len(S.SpaceGroupList) - 1
+    b_find = [["find", last], ["find", 1], ["find", 224, True], ["get", 225], ["isid", "P 1"]]
+    b_get = [["get", "Fm-3m"], ["get", last and S.SpaceGroupList[last].number], ["isid", "I a -3 d"], ["find", 17]]
+    out = []
+    for acalls, fn, bsets in ((A_CALLS, BUILDERS[0], [b_find] + ([b_get] if thorough else [])),
+                              (A2_CALLS, BUILDERS[1], [b_get] + ([b_find] if thorough else []))):
+        order, counts = plain_trace(acalls, nested)
+        for (f, l) in order:
+            if f != fn:
+                continue
+            for occ in occurrences(counts[(f, l)], thorough):
+                for bc in bsets:
+                    out.append(("mixed", {"A": acalls, "B": bc}, [["A", [f, l, occ]], ["B", None], ["A", None]]))
+    return out
+
+
 def make_schedules(ctx, a):
     thorough = ctx.tier == "thorough"
     order, counts = plain_trace(A_CALLS)
-    scheds = []
+    scheds = mixed_schedules(thorough)
     k = 0
     for (f, l) in order:
         for occ in occurrences(counts[(f, l)], thorough):
@@ -369,6 +395,7 @@ def finder_only(ctx):
         for occ in occurrences(counts[(f, l)], False):
             rot = k % len(B_POOL)
             scheds.append(({"A": A_CALLS, "B": B_POOL[rot:] + B_POOL[:rot]}, [["A", [f, l, occ]], ["B", None], ["A", None]]))
+    scheds += [(th, sc) for _, th, sc in mixed_schedules(ctx.tier == "thorough", nested=True)]
     with cf.ThreadPoolExecutor(min(core.NPROC, 16)) as ex:
         outs = list(ex.map(child, [mkspec(t, s, True) for t, s in scheds]))
     inst = Dummy()
